@@ -670,3 +670,27 @@ ADD5 = {
 for _pid, _d in ADD5.items():
     for _k, _v in _d.items():
         PROPS[_pid][_k] = (PROPS[_pid].get(_k, "") + " " + _v).strip()
+
+# Round-6 strengthening (appended like the texts above).
+ADD6 = {
+    "C01": dict(rule="c01n also: 130 requests one at a time on one connection."),
+    "C03": dict(rule="(2) the five framing fields with a byte >= 0x80 at the start, end or middle of the value, alone / after / before a valid field of the same name, a second request behind: the head is refused as malformed (oracle malformed-head-accepted)."),
+    "C04": dict(rule="130 / 260 requests on one connection (pipelined, one at a time, fragmented). Suite c04p: n handlers panic at once on a pool of n threads (n = 1, 2, 3) while a plain request and an upload of other connections are queued: every answer arrives and the number of handler calls equals Pool.scenario.",
+                explanation="Model/Pool.lean + Props/C04Pool.lean: the handler pool's bookkeeping (threads alive / busy, jobs queued); pool_inv, C04_pool_progress, C04_pool_drains, C04_pool_quiescent for the repaired adapter, C04_pool_legacy_stuck for the pinned behaviour (genuine defect, fix 7ad75dd)."),
+    "C06": dict(rule="Suite c13w: a 6 MiB response to a client that is not reading yet while the permit is revoked: the response arrives complete."),
+    "C07": dict(rule="c04e also: an event stream with status 503 (a response that closes the connection) is chunked like any other."),
+    "C08": dict(rule="c08c also with status 103 (an interim response whose file body is missing or short: the write side is shut down all the same)."),
+    "C09": dict(rule="GET, HEAD, TRACE, DELETE, OPTIONS and M requests with declared bodies at the S and M boundaries."),
+    "C10": dict(rule="Behaviours S<k> (the upload's handler sends k = 10, 50, 51, 80 events before it returns an event stream) and Q (the handler keeps a clone of the request beyond its return)."),
+    "C11": dict(rule="Suite c11w: event streams through write_http_response itself, with events that do not fit the encoder's read slice: the failure is reported and the stream is not terminated."),
+    "C12": dict(rule="Kind x: an upload the handler refuses (413). After every history max_conns + 2 fresh gated clients: never more than max_conns inside. Suite c12i: one async thread, failing accepts, idle clients ending their connections: the client in the backlog is served."),
+    "C13": dict(rule="The handler owns state whose Drop takes 120 ms. Suite c13b: every thread of the handler pool (1, 2, 3) is inside a handler at revocation: signal within the bound, port refused, then the responses."),
+    "C14": dict(rule="c14r also: a declared length among the consumed fields; values with VT / FF / US / DEL at their edges."),
+    "C15": dict(rule="c15r also: every Cookie value of up to 6 (7) symbols over {a = ; \" SP}. c15s: the status code rotates over 200, 204, 304, 201, 404, 302, 500."),
+    "C18": dict(rule="Op z: another thread panics while it holds the handle returned by global_logger() (the lock is poisoned from then on)."),
+    "C19": dict(rule="c19w also: files of an earlier run with identical size and modification time; every fifth run gives a relative prefix and changes the working directory once the writer runs."),
+    "C20": dict(rule="c20w also: a response that cannot be written (own Content-Length) as first / second / fourth response of a connection and after a 100 Continue; uploads while the disk fails (RLIMIT_FSIZE 4096, SIGXFSZ ignored): 5xx, never 4xx."),
+}
+for _pid, _d in ADD6.items():
+    for _k, _v in _d.items():
+        PROPS[_pid][_k] = (PROPS[_pid].get(_k, "") + " " + _v).strip()
